@@ -257,6 +257,9 @@ class CallListerVisitor(ast.NodeVisitor):
                 self.visit(name)
 
     def visit_FunctionDef(self, node):
+        name = getattr(node, 'name', None)
+        if name is not None: # def statements rebind their name
+            self.namespace[name] = Unknown(node)
         self.namespace = Namespace(self.namespace)
         self.process_parameters(node.args)
         body = node.body
@@ -269,6 +272,34 @@ class CallListerVisitor(ast.NodeVisitor):
         self.namespace = self.namespace.parent
 
     visit_Lambda = visit_FunctionDef
+    visit_AsyncFunctionDef = visit_FunctionDef
+
+    def visit_ClassDef(self, node):
+        self.namespace[node.name] = Unknown(node)
+        self.generic_visit(node)
+
+    def visit_ExceptHandler(self, node):
+        if node.name:
+            self.namespace[node.name] = Unknown(node)
+        self.generic_visit(node)
+
+    def visit_alias(self, node):
+        name = node.asname or node.name.partition('.')[0]
+        self.namespace[name] = Unknown(node)
+
+    def visit_MatchAs(self, node):
+        if node.name:
+            self.namespace[node.name] = Unknown(node)
+        self.generic_visit(node)
+
+    def visit_MatchStar(self, node):
+        if node.name:
+            self.namespace[node.name] = Unknown(node)
+
+    def visit_MatchMapping(self, node):
+        if node.rest:
+            self.namespace[node.rest] = Unknown(node)
+        self.generic_visit(node)
 
     def visit_Nonlocal(self, node):
         for name in node.names:
